@@ -31,6 +31,8 @@ func checkC11(c *Ctx) {
 	// change of the table rebuilds the derived state (shared with C04/C05)
 	c.floor("R11.8 derived-table-rebuilt-on-every-change", 1)
 	c.servicesWriteRebuilds("R11.8 derived-table-rebuilt-on-every-change")
+	// a restored balancer refreshes its rotation like a deployed one: nothing but the refresh writes it (shared with C09)
+	rRotationOnlyRefreshed(c, "R11.9 rotation-written-only-by-the-refresh")
 }
 
 var serviceFieldClass = map[string]string{
